@@ -158,6 +158,7 @@ def obligations():
     obs.append(Ob('h_resume', {'n': 3, 'handled_before': True, 'pin': {'s0': 3, 's1': 2, 's2': 1}}, timeout=900, path_timeout=300))
     obs.append(Ob('h_resume', {'n': 3, 'handled_before': True, 'pin': {'s0': 3, 's1': 2, 's2': 0}}, timeout=900, path_timeout=300))
     R = list(range(7))
-    obs += sample(Ob('h_resume', {'n': 3, 'handled_before': False}, timeout=900, path_timeout=300, tiers=('thorough',)), 24, seed=141, s0=R, s1=R, s2=R)
-    obs += sample(Ob('h_resume', {'n': 3, 'handled_before': True}, timeout=900, path_timeout=300, tiers=('thorough',)), 60, seed=142, s0=R, s1=R, s2=R)
+    # thorough: the first two steps pinned per cell, the third one symbolic (a path costs ~1.5 s here)
+    obs += split(Ob('h_resume', {'n': 3, 'handled_before': False}, timeout=900, path_timeout=300, tiers=('thorough',)), s0=R, s1=[0, 1, 2, 4, 6])
+    obs += split(Ob('h_resume', {'n': 3, 'handled_before': True}, timeout=900, path_timeout=300, tiers=('thorough',)), s0=R, s1=R)
     return obs
